@@ -3,6 +3,7 @@ package sym
 // intrinsics.go: models of the environment boundary (see DESIGN.md 2.3) and the verif API.
 
 import (
+	"strconv"
 	"fmt"
 	"net/url"
 	"go/types"
@@ -182,10 +183,22 @@ func registerIntrinsics(p *Program) {
 	I[verifPkg+".Choice"] = func(ex *Exec, fr *frame, fn *ssa.Function, a []Value) Value {
 		label := constStr(a[0], "verif.Choice label")
 		n := constInt(a[1], "verif.Choice n")
-		c := ex.Choice(int(n))
-		ex.Notes = appendUniq(ex.Notes, fmt.Sprintf("choice %s over %d alternatives (enumerated)", label, n))
 		k := ex.counters["choice!"+label]
 		ex.counters["choice!"+label] = k + 1
+		var c int
+		pinnedChoice := false
+		if ex.pin != nil {
+			// pinned replay: take the recorded alternative instead of enumerating all of them
+			if val, ok := ex.pin[fmt.Sprintf("choice:%s#%d", label, k)]; ok {
+				if pv, err := strconv.Atoi(val); err == nil && pv >= 0 && pv < int(n) {
+					c, pinnedChoice = pv, true
+				}
+			}
+		}
+		if !pinnedChoice {
+			c = ex.Choice(int(n))
+		}
+		ex.Notes = appendUniq(ex.Notes, fmt.Sprintf("choice %s over %d alternatives (enumerated)", label, n))
 		// record as pseudo-input for replay
 		v := Var(fmt.Sprintf("ch!%s#%d", label, k), SInt)
 		ex.declareInput(v, fmt.Sprintf("choice:%s#%d", label, k))
